@@ -7,6 +7,8 @@
 -/
 import Avra.Model.Cli
 import Avra.Props.C07
+import Avra.Props.C12
+import Avra.Lemmas.Bytes
 namespace Avra.Props.C18
 open Avra Avra.Model Avra.Model.Cli
 
@@ -49,6 +51,31 @@ theorem writes_are_library_images (fs : Fs) (inc : Str) (o : Opts) (b : BuildRes
 theorem written_file_decodes (img : List Nat) (hb : bytesOk img) (hl : img.length ≤ 2 ^ 32) :
     Spec.Hex.readCells (Hex.fileText img) = some (Spec.Hex.imageCells img) :=
   C07.hex_roundtrip img hb hl
+
+/-- the side conditions discharged: every image `build_file` returns consists of bytes
+    (Lemmas.Bytes.build_bytes_ok) and fits the selected device (C12.build_fits), so — for every
+    device whose memories are below 4 GiB, which `device_memories_small` shows for the whole device
+    table and the default device — BOTH files the tool writes decode to exactly the library's
+    images -/
+theorem built_files_decode (fs : Fs) (path : Str) (incs : List Str) (b : BuildResult)
+    (h : buildFile fs path incs = .ok b) (hd : 2 * b.flashSize ≤ 2 ^ 32 ∧ b.eepromSize ≤ 2 ^ 32) :
+    Spec.Hex.readCells (Hex.fileText b.code) = some (Spec.Hex.imageCells b.code) ∧
+    Spec.Hex.readCells (Hex.fileText b.eeprom) = some (Spec.Hex.imageCells b.eeprom) := by
+  unfold buildFile at h
+  cases hp : parseFile fs path incs initCtx with
+  | ok st =>
+    rw [hp] at h
+    dsimp only at h
+    have hb := Lemmas.Bytes.build_bytes_ok fs st b h
+    have hf := C12.build_fits fs st b h
+    exact ⟨C07.hex_roundtrip _ hb.1 (by omega), C07.hex_roundtrip _ hb.2 (by omega)⟩
+  | error e => rw [hp] at h; simp at h
+  | panic p => rw [hp] at h; simp at h
+  | oof => rw [hp] at h; simp at h
+
+theorem device_memories_small :
+    (∀ p ∈ Gen.devices, 2 * p.2.flash ≤ 2 ^ 32 ∧ p.2.eeprom ≤ 2 ^ 32) ∧
+    2 * defaultDevice.flash ≤ 2 ^ 32 ∧ defaultDevice.eeprom ≤ 2 ^ 32 := by decide
 
 /-- when both images are non-empty and both locations can be written, both files are written,
     flash first -/
